@@ -21,6 +21,9 @@ pub struct Cfg {
     /// (order value, result), in insertion order
     pub checks: Vec<(u32, Res)>,
     pub stats: Vec<u32>,
+    /// the caller records a business error on the admitted entry before exit (completion is still due)
+    #[serde(default)]
+    pub traced_error: bool,
 }
 
 type Log = Arc<Mutex<Vec<String>>>;
@@ -145,6 +148,9 @@ pub fn run_one(c: &Cfg) -> Result<(usize, String), String> {
     }
     // 4. completion exactly once on exit iff passed
     if let Ok(e) = &r {
+        if c.traced_error {
+            e.set_err(sentinel_core::Error::msg("business error"));
+        }
         e.exit();
     }
     let all = log.lock().unwrap().clone();
@@ -203,23 +209,26 @@ pub fn configs(thorough: bool) -> Vec<Cfg> {
     let mut v = vec![];
     // each kind varied fully against a fixed shape of the others
     for checks in seqs(&check_alpha, k) {
-        v.push(Cfg { preps: vec![2], checks, stats: vec![2, 1] });
+        v.push(Cfg { preps: vec![2], checks, stats: vec![2, 1], traced_error: false });
     }
     for preps in seqs(&orders, 4) {
-        v.push(Cfg { preps, checks: vec![(2, Res::Pass), (1, Res::BlockFlow)], stats: vec![1, 1] });
+        v.push(Cfg { preps, checks: vec![(2, Res::Pass), (1, Res::BlockFlow)], stats: vec![1, 1], traced_error: false });
     }
     for stats in seqs(&orders, 4) {
-        v.push(Cfg { preps: vec![1], checks: vec![(2, Res::BlockOther), (1, Res::Pass)], stats: stats.clone() });
-        v.push(Cfg { preps: vec![1], checks: vec![(2, Res::Wait), (1, Res::Pass)], stats });
+        v.push(Cfg { preps: vec![1], checks: vec![(2, Res::BlockOther), (1, Res::Pass)], stats: stats.clone(), traced_error: false });
+        v.push(Cfg { preps: vec![1], checks: vec![(2, Res::Wait), (1, Res::Pass)], stats, traced_error: false });
     }
     // jointly for up to 2 slots per kind
     for preps in seqs(&orders, 2) {
         for checks in seqs(&check_alpha, 2) {
             for stats in seqs(&orders, 2) {
-                v.push(Cfg { preps: preps.clone(), checks: checks.clone(), stats });
+                v.push(Cfg { preps: preps.clone(), checks: checks.clone(), stats, traced_error: false });
             }
         }
     }
+    // every chain again with a business error traced on the admitted entry
+    let traced: Vec<Cfg> = v.iter().filter(|c| !c.checks.iter().any(|x| matches!(x.1, Res::BlockFlow | Res::BlockOther))).map(|c| Cfg { traced_error: true, ..c.clone() }).collect();
+    v.extend(traced);
     v
 }
 
